@@ -139,6 +139,12 @@ class MarkerExpression(SingleMarker):
             # differently. The view is derived from the marker's own text on demand.
             return MarkerExpression(name, pkg_spec.operator, pkg_version)
         assert isinstance(specifier, GenericSpecifier)
+        if specifier.op in ("contains", "not contains"):
+            # the view of a literal-on-the-left atom: '"x" in name' / '"x" not in name'
+            op = "in" if specifier.op == "contains" else "not in"
+            return MarkerExpression(
+                name, op, specifier.value, reversed=True, _specifier=specifier
+            )
         return MarkerExpression(
             name, specifier.op, specifier.value, _specifier=specifier
         )
